@@ -1,8 +1,8 @@
 SPECIFICATION TraceSpec
 CONSTANTS
-  MaxN = 6
+  MaxN = 12
   MaxCrash = 0
-  MaxIno = 24
+  MaxIno = 48
   Variant = "code"
 POSTCONDITION Report
 CHECK_DEADLOCK FALSE
